@@ -636,6 +636,12 @@ class C10Membership(Monitor):
                 a = after.vehicles[v.id]
                 if a.vehicle_state.instance_id == before.vehicles[v.id].vehicle_state.instance_id:
                     h.flag("cross_fleet_instruction_rejected")
+        # (requests whose fleet status does not fit the scenario - a fleet id without fleets file, none with one - are part of
+        # the generated input; the loader is documented to drop them. Their admission alone is not judged here: the statement
+        # is about what vehicles and dispatchers then do, which clauses (a) and (b) decide.)
+        known_fleets = set(h.spec.get("fleet_ids") or [])
+        if any((known_fleets and not r.membership.memberships) or (r.membership.memberships and not known_fleets) for r in after.requests.values()):
+            h.flag("misfit_request_admitted")
         yield from self.check_state(after, "after step")
         # (b) pairings produced by the built-in generators (every instruction they emitted, whether or not a
         # later generator overrode it) and by the vehicles' own drivers (winning instructions nobody scripted)
